@@ -2,13 +2,25 @@
 """Re-run every registered check against every filed seed (/verif/seeded/*/patch.diff) on scratch worktrees and update meta.json
 (checks only: demo/tests were confirmed when the seed was filed).  Prints a detection table."""
 import json, os, subprocess, sys, glob
+from concurrent.futures import ThreadPoolExecutor
 VERIF = os.path.dirname(os.path.dirname(os.path.abspath(__file__)))
 rows = []
-for d in sorted(glob.glob(os.path.join(VERIF, "seeded", "*"))):
-    if not os.path.exists(os.path.join(d, "patch.diff")):
-        continue
+own_only = "--own" in sys.argv
+dirs = [d for d in sorted(glob.glob(os.path.join(VERIF, "seeded", "*"))) if os.path.exists(os.path.join(d, "patch.diff"))]
+
+
+def ev(d):
     meta = json.load(open(os.path.join(d, "meta.json")))
-    r = subprocess.run([os.path.join(VERIF, "tools", "seed_eval.py"), d], capture_output=True, text=True)
+    cmd = [os.path.join(VERIF, "tools", "seed_eval.py"), d]
+    if own_only:
+        cmd += ["--props", meta["property"]]
+    return d, subprocess.run(cmd, capture_output=True, text=True)
+
+
+with ThreadPoolExecutor(6) as ex:
+    evaluated = list(ex.map(ev, dirs))
+for d, r in evaluated:
+    meta = json.load(open(os.path.join(d, "meta.json")))
     try:
         res = json.loads(r.stdout)
     except Exception:
